@@ -117,3 +117,67 @@ Proof. vm_compute. reflexivity. Qed.
 (* hypotheses of the read-set theorems are satisfiable: published memories are kinded *)
 Example ex9_kinded : kinded (publish_tx (fun _ => false) mv_empty 0 (mkTx [(A, acct true false false (con 10 1 h1) [])] (snap_of (Some (eoa 10 0)) A) 1 false)).
 Proof. apply publish_kinded. intros l k e H. discriminate. Qed.
+
+(* ---------------------------------------------------------- read set determines value: instances *)
+From Grevm Require Import Flat.ProofsCommit.
+
+Definition m9 : mvmem := publish_all (fun _ => false) effs9.
+Definition m9_upto (n : nat) : mvmem := publish_all (fun _ => false) (firstn n effs9).
+
+Lemma version_determines_refl : forall m, version_determines m m.
+Proof. intros m l k e e' H1 H2 _. congruence. Qed.
+
+(* hypotheses of C09_readset_determines_basic are satisfiable: an atomic read of A by tx 3 in the full
+   memory, validated against the same memory *)
+Example ex9_readset_hyps :
+  let ac := rd_basic2 m9 m9 (backing_of base9) (fun _ => false) (fun _ => BenBlocked 0) 3 A in
+  ac_reads ac = [(LBasic A, RMv 1 1); (LCode A, RMv 1 1)] /\
+  (forall l v, In (l, v) (ac_reads ac) -> resolve m9 l 3 = v).
+Proof.
+  split; [vm_compute; reflexivity|].
+  intros l v H. vm_compute in H. destruct H as [H|[H|[]]]; inversion H; subst; vm_compute; reflexivity.
+Qed.
+
+(* a racing reader: tx 2 looks up Basic(A) before tx 1 (the re-point) has published and Code(A) after.
+   It returns the OLD hash h1 with the NEW code; the Basic version it recorded (tx 0) is not what the
+   validation memory resolves (tx 1): the hypothesis of the theorem fails, i.e. validation rejects *)
+Example ex9_race_is_detected :
+  let ac := rd_basic2 (m9_upto 1) (m9_upto 2) (backing_of base9) (fun _ => false) (fun _ => BenBlocked 0) 2 A in
+  ac_val ac = Ok (Some (mkInfo 10 1 h1 (Some (cf9 h2)))) /\
+  ac_reads ac = [(LBasic A, RMv 0 1); (LCode A, RMv 1 1)] /\
+  resolve (m9_upto 2) (LBasic A) 2 = RMv 1 1.
+Proof. vm_compute. repeat split; reflexivity. Qed.
+
+(* the storage analogue: tx 3 of [ex_effs] looks up the reset marker before tx 1 (the destroying tx) and
+   tx 2 (the re-creation) have published, and the slot after: it returns the constructor's write
+   without having seen the reset; the recorded marker version (none) differs from the validated one *)
+Definition m8_upto (n : nat) : mvmem := publish_all (fun _ => false) (firstn n ex_effs).
+Example ex8_race_is_detected :
+  let ac := rd_storage2 (m8_upto 1) (m8_upto 3) (backing_of ex_base) 3 A 0 in
+  ac_val ac = Ok 5%N /\
+  ac_reads ac = [(LReset A, RStorage); (LStorage A 0, RMv 0 1)] /\
+  resolve (m8_upto 3) (LReset A) 3 = RMv 2 2 /\
+  ac_val (rd_storage (m8_upto 3) (backing_of ex_base) 3 A 0) = Ok 0%N.
+Proof. vm_compute. repeat split; reflexivity. Qed.
+
+Example ex8_readset_hyps :
+  let ac := rd_storage2 (m8_upto 3) (m8_upto 3) (backing_of ex_base) 3 A 1 in
+  kinded (m8_upto 3) /\ version_determines (m8_upto 3) (m8_upto 3) /\
+  (forall l v, In (l, v) (ac_reads ac) -> resolve (m8_upto 3) l 3 = v).
+Proof.
+  split; [apply publish_all_kinded|]. split; [apply version_determines_refl|].
+  intros l v H. vm_compute in H. destruct H as [H|[H|[]]]; inversion H; subst; vm_compute; reflexivity.
+Qed.
+
+(* hypotheses of C09_publish_minimal_sound are satisfiable with a suppressed write: tx 2 of [effs9]
+   (a storage write by the delegated account) publishes neither Basic nor Code *)
+Example ex9_minimal_hyps :
+  let acct2 := acct true false false (con 10 2 h2) [(0, 42, 1)]%N in
+  classify acct2 = Updated (con 10 2 h2) [(0, 1)]%N /\
+  info_ok cf9 (Some (con 10 2 h2)) (con 10 2 h2) /\
+  assoc_last (LBasic A) (writes_of_account (fun _ => false) (snap_of (Some (con 10 2 h2)) A) A acct2) = None /\
+  assoc_last (LCode A) (writes_of_account (fun _ => false) (snap_of (Some (con 10 2 h2)) A) A acct2) = None.
+Proof.
+  cbv zeta. split; [vm_compute; reflexivity|]. split; [|split; vm_compute; reflexivity].
+  unfold info_ok. vm_compute. split; [reflexivity|discriminate].
+Qed.
